@@ -148,6 +148,45 @@ def make_methods(log: Log, is_async: bool) -> Dict[str, Callable[..., Any]]:
 
     fac['slow'] = a_slow if is_async else slow
 
+    def slowfail(v, ticks=0, how='rpc'):
+        log.calls.append(('slowfail', (v, ticks, how), {}))
+        if how == 'rpc':
+            raise ProbeTypedError(data=v)
+        raise RuntimeError(f'Zq7_marker_{v}')
+
+    async def a_slowfail(v, ticks=0, how='rpc'):
+        # really suspends, THEN fails: the error path runs while other elements are in flight
+        log.calls.append(('slowfail', (v, ticks, how), {}))
+        for _ in range(ticks if isinstance(ticks, int) and not isinstance(ticks, bool) and 0 <= ticks <= 8 else 0):
+            await asyncio.sleep(0)
+        if how == 'rpc':
+            raise ProbeTypedError(data=v)
+        raise RuntimeError(f'Zq7_marker_{v}')
+
+    fac['slowfail'] = a_slowfail if is_async else slowfail
+
+    def byid(id, extra=0):
+        # a parameter literally named like a protocol member
+        log.calls.append(('byid', (id, extra), {}))
+        return ['byid', id, extra]
+
+    fac['byid'] = byid
+
+    async def _a_wrapped(a, b=0):
+        log.calls.append(('wrapped', (a, b), {}))
+        return ['wrapped', a, b]
+
+    def _s_wrapped(a, b=0):
+        log.calls.append(('wrapped', (a, b), {}))
+        return ['wrapped', a, b]
+
+    def wrapped(a, b=0):
+        # in async worlds: a plain callable that RETURNS a coroutine (what a functools.wraps decorator around an
+        # `async def` looks like to asyncio.iscoroutinefunction)
+        return _a_wrapped(a, b) if is_async else _s_wrapped(a, b)
+
+    fac['wrapped'] = wrapped
+
     def whoami(ctx):
         log.calls.append(('whoami', (), {}))
         log.contexts.append(ctx)
@@ -208,7 +247,7 @@ def make_view(log: Log, is_async: bool):
     return ProbeView
 
 
-METHOD_NAMES = ('whoami', 'ctxp', 'slow', 'fac1', 'fac2', 'ok', 'noargs', 'echo', 'kwonly', 'rpcerr', 'typed', 'boom', 'ctxm', 'view.vm')
+METHOD_NAMES = ('slowfail', 'byid', 'wrapped', 'whoami', 'ctxp', 'slow', 'fac1', 'fac2', 'ok', 'noargs', 'echo', 'kwonly', 'rpcerr', 'typed', 'boom', 'ctxm', 'view.vm')
 
 
 def build_registry(log: Log, coroutines: bool) -> 'pjrpc.server.MethodRegistry':
